@@ -16,7 +16,9 @@ Start == Ev.e = "dist.start" /\ sw' = Ev.wit /\ sd' = Ev.dist /\ seenput' = {} /
 Put == Ev.e = "dist.put" /\ seenput' = seenput \cup {Ev.log} /\ retried' = (IF Ev.log \in seenput THEN retried \cup {Ev.log} ELSE retried)
        /\ UNCHANGED <<sw, sd>> /\ i' = i + 1
 Res == Ev.e = "dist.result" /\ UNCHANGED <<sw, sd, seenput, retried>> /\ i' = i + 1
-TNext == i <= Len(Trace) /\ (Start \/ Put \/ Res) /\ UNCHANGED vars
+\* one run of the distributor INSIDE omniwitness.Main (rounds at the distribute interval, slow / failing / fine answers per log)
+InMain == Ev.e = "dist.main" /\ UNCHANGED <<sw, sd, seenput, retried>> /\ i' = i + 1
+TNext == i <= Len(Trace) /\ (Start \/ Put \/ Res \/ InMain) /\ UNCHANGED vars
 TSpec == TInit /\ [][TNext]_<<tvars, vars>>
 
 Check(name, ok) == ok \/ PrintT("FAIL " \o ToJson([id |-> "C15", name |-> name, i |-> i, run |-> Ev.run, k |-> Ev.k, sig |-> "-"]))
@@ -32,6 +34,11 @@ MonRes ==
     /\ Check("ErrorIffSomeLogFailed", Ev.err = (\E l \in 1..N : sw[l] # "valid" \/ ~(IF sd[l] \in Flaky THEN l \in retried ELSE Delivered(sd[l]))))
     /\ Check("WitnessAskedForEveryLog", SeqToSet(Ev.asked) = 1..N)
     /\ Check("Terminates", ~Ev.hang)
-Monitor == CASE Ev.e = "dist.put" -> MonPut [] Ev.e = "dist.result" -> MonRes [] OTHER -> TRUE
+MonMain ==
+    \* whatever the distributor answers for one log (slowly, with an error, fine), every log the witness holds a checkpoint for gets its PUT
+    /\ Check("EveryLogAttemptedInsideMain", SeqToSet(Ev.attempted) = {l \in 1..Len(Ev.wit) : Ev.wit[l] = "valid"})
+    /\ Check("OnlyTheWitnessBytesOnTheRightPathLeaveMain", Ev.foreign = 0)
+    /\ Check("MainKeepsRunning", Ev.main = "ended")
+Monitor == CASE Ev.e = "dist.put" -> MonPut [] Ev.e = "dist.result" -> MonRes [] Ev.e = "dist.main" -> MonMain [] OTHER -> TRUE
 Done == TLCGet("stats").diameter - 1 = Len(Trace)
 =============================================================================
